@@ -459,6 +459,7 @@ theorem colOK_of_legal (w d : Nat) (raws : List (Option Nat)) (sawEqual : Bool)
     · have hz : d ≠ 0 := by omega
       obtain ⟨lo', hlo', hfit⟩ := hdpos h
       rw [hmin] at hlo'; cases hlo'
+      refine ⟨lo, hmin, ?_⟩
       simp only [hz, if_false, List.length_map, true_and]
       intro p hp
       obtain ⟨hp1, hp2⟩ := mem_zip_map raws _ p hp
@@ -472,8 +473,103 @@ theorem colOK_of_legal (w d : Nat) (raws : List (Option Nat)) (sawEqual : Bool)
           exact toBits_ne_ones d _ (hfit v hp1)
       · rw [hv] at hp1 ⊢
         have := hfit v hp1
-        refine ⟨lo, hmin, hlomin v hp1, ?_⟩
+        refine ⟨hlomin v hp1, ?_⟩
         simp only [Spec.incrBits, ofBits_toBits]
         exact Nat.mod_eq_of_lt (by omega)
+
+theorem exists_zip_of_mem {α β : Type} (l1 : List α) (l2 : List β) (a : α) (h : a ∈ l1)
+    (hl : l2.length = l1.length) : ∃ b, (a, b) ∈ l1.zip l2 := by
+  induction l1 generalizing l2 with
+  | nil => simp at h
+  | cons x xs ih =>
+    cases l2 with
+    | nil => simp at hl
+    | cons y ys =>
+      simp only [List.mem_cons] at h
+      rcases h with h | h
+      · subst h; exact ⟨y, by simp⟩
+      · obtain ⟨b, hb⟩ := ih ys h (by simpa using hl)
+        exact ⟨b, by simp [hb]⟩
+
+theorem eq_map_of_zip {α β : Type} (l1 : List α) (l2 : List β) (f : α → β)
+    (hl : l2.length = l1.length) (h : ∀ p ∈ l1.zip l2, p.2 = f p.1) : l2 = l1.map f := by
+  induction l1 generalizing l2 with
+  | nil => simpa using hl
+  | cons x xs ih =>
+    cases l2 with
+    | nil => simp at hl
+    | cons y ys =>
+      have h1 := h (x, y) (by simp)
+      have h2 := ih ys (by simpa using hl) (fun p hp => h p (by simp [hp]))
+      simp only at h1
+      rw [List.map_cons, h1, h2]
+
+theorem all_id_eq_ones (b : Bits) (h : b.all id = true) : b = ones b.length := by
+  induction b with
+  | nil => rfl
+  | cons x xs ih =>
+    simp only [List.all_cons, id, Bool.and_eq_true] at h
+    obtain ⟨h1, h2⟩ := h
+    subst h1
+    have := ih h2
+    simp only [ones, List.length_cons, List.replicate_succ] at this ⊢
+    rw [← this]
+
+/-- conversely, `ColOK` pins the bits down: they are the spec column for a legal width -/
+theorem legal_of_colOK (w : Nat) (raws : List (Option Nat)) (sawEqual : Bool) (bits : Bits)
+    (h : Spec.ColOK w raws sawEqual bits) :
+    ∃ d, Spec.LegalWidth d raws ∧ (d = 0 ↔ sawEqual = true) ∧
+      bits = Spec.intColumnBitsWith d raws w := by
+  obtain ⟨mn, d, incs, hbits, hlen, hd, hflag, hmn, h0, hpos⟩ := h
+  refine ⟨d, ⟨by omega, fun h => (h0 h).2, fun h => ?_⟩, hflag, ?_⟩
+  · obtain ⟨lo, hlo, hl, hz⟩ := hpos h
+    refine ⟨lo, hlo, fun x hx => ?_⟩
+    obtain ⟨b, hb⟩ := exists_zip_of_mem raws incs (some x) hx hl
+    obtain ⟨hb1, hb2, hb3⟩ := hz _ hb
+    obtain ⟨_, hv⟩ := hb3 x rfl
+    simp only at hb1 hb2 hv
+    have hlt := ofBits_lt b
+    have hmax := ofBits_eq_max_iff b
+    rw [hb1] at hlt hmax
+    have hne : ofBits b ≠ 2 ^ d - 1 := by
+      intro he
+      have := all_id_eq_ones b (hmax.mp he)
+      rw [hb1] at this
+      have := hb2.mpr this
+      cases this
+    omega
+  · cases hmin : Spec.colMin raws with
+    | none =>
+      rw [hmin] at hmn
+      have hz : d = 0 := by
+        rcases Nat.eq_zero_or_pos d with h | h
+        · exact h
+        · obtain ⟨lo, hlo, _⟩ := hpos h; rw [hmin] at hlo; cases hlo
+      rw [hbits, (h0 hz).1, hmn]
+      simp [Spec.intColumnBitsWith, hmin]
+    | some lo =>
+      rw [hmin] at hmn
+      simp only at hmn
+      have hmn' : mn = toBits w lo := by
+        have := toBits_ofBits mn
+        rw [hlen, hmn] at this; exact this.symm
+      by_cases hz : d = 0
+      · rw [hbits, (h0 hz).1, hmn']
+        simp [Spec.intColumnBitsWith, hmin, hz]
+      · obtain ⟨lo', hlo', hl, hp⟩ := hpos (by omega)
+        rw [hmin] at hlo'; cases hlo'
+        have hincs : incs = raws.map (Spec.incrBits d lo) := by
+          apply eq_map_of_zip raws incs _ hl
+          intro p hp'
+          obtain ⟨hp1, hp2, hp3⟩ := hp p hp'
+          cases hp1' : p.1 with
+          | none => exact hp2.mp hp1'
+          | some v =>
+            obtain ⟨_, hv⟩ := hp3 v hp1'
+            have := toBits_ofBits p.2
+            rw [hp1, hv] at this
+            simp only [Spec.incrBits]; exact this.symm
+        rw [hbits, hincs, hmn']
+        simp only [Spec.intColumnBitsWith, hmin, hz, if_false, List.flatMap_def]
 
 end Bufr
